@@ -17,6 +17,7 @@ int g_bailouts;
 int g_rep_mode = -1, g_rep_x;
 static int g_opts_harness, g_opts_expect_fail;   /* set by h_reporters only */
 int g_stderr_writes;
+int g_stdout_close_failed;
 int g_exit_status = -1;
 const char *g_cur_operand;    /* name of the operand being processed */
 struct stat g_instat_seen;
@@ -62,7 +63,7 @@ void setbuf(FILE *f, char *b) { }
 int isatty(int fd) { int r; if (g_opts_harness) return 0; return r != 0; }   /* C22 harness: stdin/stdout are not terminals (stated assumption) */
 int printf(const char *fmt, ...) { int r; return r; }
 int fclose(FILE *f) { int r; return r; }
-void _exit(int st) { g_exit_status = st; if (st == 4) __CPROVER_assert(0, "CANARY exit status 4"); if (st == 0) __CPROVER_assert(0, "CANARY exit status 0"); __CPROVER_assert(INV_J && opathn == 0, "_exit: no partial output file is left"); __CPROVER_assert(st == (warned ? 4 : 0), "normal exit status is 4 iff some operand was skipped with a warning, else 0"); __CPROVER_assume(0); }
+void _exit(int st) { g_exit_status = st; if (st == 4) __CPROVER_assert(0, "CANARY exit status 4"); if (st == 0) __CPROVER_assert(0, "CANARY exit status 0"); __CPROVER_assert(INV_J && opathn == 0, "_exit: no partial output file is left"); __CPROVER_assert(!g_stdout_close_failed, "normal exit only if closing standard output succeeded: a failed close(stdout) is a failed write and must be fatal"); __CPROVER_assert(st == (warned ? 4 : 0), "normal exit status is 4 iff some operand was skipped with a warning, else 0"); __CPROVER_assume(0); }
 
 #ifndef NAME_MAX_LEN
 #define NAME_MAX_LEN 7
@@ -113,6 +114,7 @@ int close(int fd)
     g_out_state = OUT_CLOSED_COMPLETE;
     return 0;
   }
+  if (fd == STDOUT_FILENO && r) g_stdout_close_failed = 1;       /* deferred write error (NFS, quota ...) reported by close() */
   return r ? -1 : 0;
 }
 int unlink(const char *p)
@@ -372,7 +374,7 @@ void h_main(void)
   char a0[4] = "lbz";
   char *argv[2] = { a0, 0 };
   { bool w; warned = w; }   /* any earlier operand may or may not have been skipped */
-  opathn = 0; g_sig_blocked = 0; g_operands_seen = 0; g_work_calls = 0;
+  opathn = 0; g_sig_blocked = 0; g_operands_seen = 0; g_work_calls = 0; g_stdout_close_failed = 0;
   main(1, argv);
   V_ASSERT(0, "main() never returns (it ends in _exit)");
 }
